@@ -48,7 +48,7 @@ CHECKS["C02"] = dict(
          "points reduces to decode(unmodified input) with only length/read/mode guards, and reachable non-debug panic sites are tabled with reasons.",
     note=OTHER_NOTE + " 'ISQRT answers square? correctly' is C09; primitive reduction/serialisation is C10/C11.", design="DESIGN.md §4 C02")
 CHECKS["C03"] = dict(
-    technique="static: TERM conformance of the encoder on projective coordinates, homogeneity weights of the extracted polynomial under projective scaling (HOMOG), observation funnel with exactness obligations over all encoding entry points, provenance of the affine<->projective conversion sites (C06's PROV instances), identity-form forwarding (into_affine etc.)",
+    technique="static: TERM conformance of the encoder on projective coordinates, homogeneity weights of the extracted polynomial under projective scaling (HOMOG), invariance of the extracted term under the coset involution (X,Y) -> (-X,-Y) (COSET), observation funnel with exactness obligations over all encoding entry points, provenance of the affine<->projective conversion sites (C06's PROV instances), identity-form forwarding (into_affine etc.)",
     category="other",
     text="The encoder equals the specification's map on projective (X:Y:Z:T) as a polynomial function; independently of the spec its output has weight 0 under scaling and every "
          "sign test looks at a weight-0 quantity; all 13 encoding entry points (conversions, serialisers, Debug/Display, ToConstraintField) observe self only through bytes(encode(self)).",
@@ -68,7 +68,7 @@ CHECKS["C05"] = dict(
     note=OTHER_NOTE + " Module laws follow from G_SMUL being the k-fold sum (assumed); arkworks mul_bigint trusted.", design="DESIGN.md §4 C05")
 
 CHECKS["C06"] = dict(
-    technique="static: provenance typestate over every compiler-resolved construction site of Element/AffinePoint (PROV), coordinate-wise selection shape (SELECT), validity of the published constants (CONST), compile_fail witnesses that the representation is not constructible downstream (WIT, thorough)",
+    technique="static: provenance typestate over every compiler-resolved construction site of Element/AffinePoint (PROV), coordinate-wise selection shape (SELECT), curve-equation identities of the decoder's and the Elligator map's outputs modulo the square-root contract (VALID), validity of the published constants (CONST), compile_fail witnesses that the representation is not constructible downstream (WIT, thorough)",
     category="other",
     text="The representation fields are not public, so values of these types arise only at construction sites inside the crate. All 32 sites (28 arkworks build, 4 minimal build) "
          "are found from the resolved HIR and the wrapped curve point's term must have provenance in the closed set VALID (decode / Elligator output, validated constant, group "
@@ -93,9 +93,10 @@ CHECKS["C10"] = dict(
 CHECKS["C07"] = dict(
     technique="static: TERM conformance of elligator_map with the specification's optimised Elligator 2 routine (canonical polynomial forms, projective comparison), forwarding of encode_to_curve / hash_to_curve, constants, and the structural rules of the square-root-of-ratio routine whose non-square output only this map consumes (C09's instances)",
     category="other",
-    text="NECESSARY PART ONLY: decides that each build's one-input map is, as a function of r0 (both ISQRT branches and both signs at once), the published optimised Elligator 2 routine "
-         "as a projective point, and that the public forms forward to it (two-input hash = group sum of two maps). That the optimised routine equals unoptimised Elligator 2, the "
-         "r0 -> -r0 symmetry and output validity are algebraic facts about square roots that are not visible in the code's shape and are NOT decided.",
+    text="Decides that each build's one-input map is, as a function of r0 (both ISQRT branches and both signs at once), the published optimised Elligator 2 routine "
+         "as a projective point, and that the public forms forward to it (two-input hash = group sum of two maps); and, on the code's own term and independently of the "
+         "specification, that the map is invariant under r0 -> -r0 (SYM) and that its output satisfies the curve equation and T = XY/Z for every r0 modulo the contract of the "
+         "square-root routine (VALID). NOT decided: that the optimised routine equals the unoptimised Elligator 2 map (an algebraic identity about square roots).",
     note=OTHER_NOTE + " Trusted: spec/decaf_spec.py transcription; ISQRT contract (C09); group addition (C04).", design="DESIGN.md §4 C07")
 CHECKS["C09"] = dict(
     technique="static: structural necessary conditions only - zero-case return flows, mask-below-length index rule, window/shift/pow-chain integer facts, table-filling loop summaries, constant folding of the Lazy statics, Euler split and constant-time Tonelli-Shanks loop template, Field::legendre shape",
